@@ -66,7 +66,9 @@ Judge(rec) ==
       died == "died" \in DOMAIN o
       run == RunOf(rec)
       ity == IF died THEN TBot ELSE o.infer.ty
-      perB == IF died THEN {} ELSE UNION {BackendWhy(b, o.runs[b], run, ity) : b \in Backends}
+      perB0 == IF died THEN {} ELSE UNION {BackendWhy(b, o.runs[b], run, ity) : b \in Backends}
+      \* C18 speaks about numbers that are identical or differ by more than the tolerance
+      perB == IF InBandPair(rec.e) THEN perB0 \ {"sameness_" \o b : b \in Backends} ELSE perB0
       ran == IF died THEN {} ELSE {b \in Backends : o.runs[b].class \in {"value", "fail"}}
       agree == \A b1, b2 \in ran :
                   /\ o.runs[b1].class = o.runs[b2].class
